@@ -161,6 +161,11 @@ def gen_op(model, rng, depth=0, path=None, t=None, v=None):
             return mk('add', gen_kwargs(sch, m.type, rng))
         if x < 0.8:
             k = rng.choice([0, 1, 2, 3])
+            if n and k >= 2 and rng.random() < 0.4:
+                # one and the same message object handed over k times
+                op = mk('extend_copy', [copy.deepcopy(rng.choice(cur))] * k)
+                op['same_object'] = True
+                return op
             return mk('extend_copy', [A.default_of(sch, m.type) for _ in range(k)] if not n else
                       [copy.deepcopy(rng.choice(cur)) for _ in range(k)])
         if x < 0.9:
@@ -285,7 +290,8 @@ def op_repr(op):
         if isinstance(x, bool) or x is None or isinstance(x, (int, float, str)):
             return x
         return repr(x)
-    return {'path': [list(s) for s in op['path']], 'op': op['op'], 'member': op.get('member'), 'args': r(op['args'])}
+    return {'path': [list(s) for s in op['path']], 'op': op['op'], 'member': op.get('member'), 'args': r(op['args']),
+            'kept': bool(op.get('kept')), 'same_object': bool(op.get('same_object'))}
 
 
 def op_unrepr(d):
@@ -307,7 +313,8 @@ def op_unrepr(d):
         args[0] = tuple(args[0])
     if d['op'] == 'delslice':
         args[0] = tuple(args[0])
-    return {'path': [tuple(s) for s in d['path']], 'op': d['op'], 'member': d.get('member'), 'args': args}
+    return {'path': [tuple(s) for s in d['path']], 'op': d['op'], 'member': d.get('member'), 'args': args,
+            'kept': bool(d.get('kept')), 'same_object': bool(d.get('same_object'))}
 
 
 def has_float(sch, tname):
@@ -323,10 +330,15 @@ def elem_class_lookup(sch, mod, model):
         cls = getattr(mod, r.name)
         out = []
         for v in values:
+            if op.get('same_object') and out:
+                out.append(out[0])
+                continue
             e = cls()
             pyrt.build(e, sch, r.name, v)
             out.append(e)
+        lookup.last = out
         return out
+    lookup.last = None
     return lookup
 
 
@@ -367,15 +379,47 @@ def run_history(acc, sch, w, mod, tname, tags, rng, length, ops=None):
         acc.violation(PROP, 'fresh-message-observation-raises:%s' % type(e).__name__,
                       witness(error='%s: %s' % (type(e).__name__, e)))
         return
+    handles = {}
     for step in range(length):
         op = ops[step] if ops is not None else gen_op(model, rng)
+        if ops is None and not op['path'] and op['op'] not in ('disc', 'get', 'set') and rng.random() < 0.5:
+            op['kept'] = True      # use the array object handed out the first time (if any) instead of reading the field again
         if ops is not None and step >= len(ops):
             break
         tk = kind_of_target(sch, model, op)
         pre_state = copy.deepcopy(model.state)
         expected = model.expect_and_apply(op)
         history.append(op_repr(op))
-        exc = A.perform(msg, op, lookup)
+        if op.get('kept'):
+            acc.count('operations_through_a_kept_array_object')
+        exc = A.perform(msg, op, lookup, handles)
+        if exc is None and op['op'] in ('extend_copy', 'add', 'set', 'disc'):
+            # structural invariant at a quiescent point: the message is a tree of its own objects - nothing is
+            # reachable under two paths, and nothing of the messages handed to extend() has become part of it
+            ids = pyrt.object_ids(msg, sch, tname)
+            seen_ids = {}
+            dup = None
+            for pth, i in ids:
+                if i in seen_ids:
+                    dup = (seen_ids[i], pth)
+                    break
+                seen_ids[i] = pth
+            foreign = None
+            if dup is None and op['op'] == 'extend_copy' and lookup.last:
+                mine = set(seen_ids)
+                t, _h = model.resolve_path(op['path'])
+                et = model.member(t, op['member']).type
+                for src in lookup.last:
+                    hit = [p_ for p_, i in pyrt.object_ids(src, sch, et) if i in mine]
+                    if hit:
+                        foreign = hit[0]
+                        break
+            acc.count('object_tree_checks')
+            if dup or foreign:
+                acc.violation(PROP, 'object-shared-between-%s' % ('two-places-of-the-message' if dup else
+                                                                  'the-message-and-a-message-passed-to-extend'),
+                              witness(history=history, paths=dup or foreign))
+                return
         acc.ev()
         acc.count('operations')
         got = A.OK if exc is None else type(exc).__name__
